@@ -976,6 +976,17 @@ func (j *c05Judge) run(recv c05Recv, calls []c05Call) {
 		// the same case under the exact-where-it-answers equality oracle (the instance the theorems
 		// are tied through); the driver answers "unmodelled" where the decimal text could matter
 		ctx.Add("rfn.runx", impl, rw, c05Wires(calls))
+		if c05TextFree(recv, calls) {
+			// all numbers are integers or infinities: the code's text-based equality provably coincides with exact
+			// comparison (C05.run_code_eq_exact), so the model under the total exact oracle must give this very outcome
+			ctx.Add("rfn.runi", impl, rw, c05Wires(calls))
+			ctx.Tag("bridge:integers-only(runi)")
+		} else {
+			ctx.Tag("bridge:some-non-integer")
+		}
+	}
+	if j.allSteps && ctx.R.Intn(3) == 0 {
+		c05d05With(ctx, recv, calls) // the same case through RefineWith / RefineNotNull
 	}
 	ctx.Tag("recv:" + recv.tag + ":" + tk)
 	if panicAt >= 0 {
@@ -1430,8 +1441,14 @@ func runC05(ctx *Ctx) {
 		c05Random(ctx, rnd)
 	}
 
+	// ---------- (b') slice d05: integer-only cases at mixed precisions (the bridge), nullness within one chain
+	c05d05Integers(ctx, rnd)
+	c05d05Chains(ctx, rnd, &scope)
+	c05d05RawUnknown(ctx, rnd, &scope)
+
 	// ---------- (c) prefixes
 	c05Prefixes(ctx, &scope)
+	c05d05NoBoundary(ctx, &scope)
 	ctx.res.Exhaustive = true
 	ctx.res.Scope = strings.Join(scope, "; ")
 }
@@ -1629,16 +1646,32 @@ func c05PrefixCase(ctx *Ctx, p string, conts []string) {
 	lb := norm.NFC.LastBoundary([]byte(nfc))
 	var advs []string
 	rem := []byte(nfc)
+	prevB, thisB := 0, 0 // the scan loop of SafeKnownPrefix, mirrored (Refine.scanLoop)
 	for len(rem) > 0 {
 		a, _, err := textseg.ScanGraphemeClusters(rem, false)
 		if err != nil {
 			return
 		}
 		advs = append(advs, fmt.Sprint(a))
+		prevB = thisB
 		if a == 0 {
 			break
 		}
+		thisB += a
 		rem = rem[a:]
+	}
+	if lb == -1 {
+		// law D05.ExtNB.noBoundary_nonascii: an ASCII byte always starts a normalisation boundary
+		ascii := false
+		for _, b := range []byte(nfc) {
+			if b < 128 {
+				ascii = true
+			}
+		}
+		ctx.Probe("noBoundary_nonascii", !ascii, fmt.Sprintf("NFC(%q) has no normalisation boundary but contains an ASCII byte", p))
+		if prevB > 0 {
+			ctx.Tag("prefix:lastBoundary=-1:several-clusters")
+		}
 	}
 	var safe string
 	if pn, why := try(func() { safe = ctystrings.SafeKnownPrefix(p) }); pn {
@@ -1667,6 +1700,10 @@ func c05PrefixCase(ctx *Ctx, p string, conts []string) {
 	ctx.Probe("safe-prefix-is-normalized", cty.NormalizeString(safe) == safe, fmt.Sprintf("NormalizeString(SafeKnownPrefix(%q)) differs", p))
 	for _, c := range conts {
 		full := norm.NFC.String(p + c)
+		if lb == -1 {
+			// law D05.ExtNB.lastClusterStart_stable
+			ctx.Probe("lastClusterStart_stable", strings.HasPrefix(full, nfc[:prevB]), fmt.Sprintf("NFC(%q) has no boundary; the text before its last scanned grapheme cluster is not a prefix of NFC(%q)", p, p+c))
+		}
 		if lb >= 0 {
 			ctx.Probe("lastBoundary_stable", strings.HasPrefix(full, nfc[:lb]), fmt.Sprintf("NFC(%q)[:LastBoundary] is not a prefix of NFC(%q)", p, p+c))
 		}
